@@ -11,6 +11,8 @@ C03_PATTERNS_QUICK = [
     "^ab?c", "^ab*", "^ab{0}c", r"^a\.*b", "^foo|bar", "^a(b|c)", "(?i)^abc", "^abc$", "a^b", "^abc", "abc", "^a.c", r"^a\.c",
     "^[ab]c", "^ab+", "^a|b", "^(ab)?c", r"^a\.?b", "^a-b_c", "^ab{2}", "^a$|b", ".*", "^$", "b$", r"^a\b", "^ab{1,2}", "(^a)|(^b)",
     r"^stats\.(a|b)[0-9]+", "^aB", "^a\\.b\\.", "^ab??c", "^ab*?c", "^a{0}b", "^a??b",
+    # case folding that starts after the anchor (added after seeded change C03 was missed by the first family)
+    "^a[Bb]c", "^(?i)ab", "^a(?i:b)c", "^a[Bb]", "(?i:^a)b", "^[Aa]b",
 ]
 
 PROPS = {}
@@ -40,7 +42,7 @@ PROPS["C01"] = {
     "outside": "non-carbon route types (enter only as capture routes); real sockets; filter semantics (C03)",
     "assumptions": ["destinations are observed through their In channel (not running)", "validation level none so every 3-field line is valid"],
     "groups": [
-        {"pkg": "table", "hdir": "table", "specs": [spec("C01/table", "VerifC01Table")]},
+        {"pkg": "table", "hdir": "table", "specs": [spec("C01/table", "VerifC01Table"), spec("C01/rewritten", "VerifC01Rewritten")]},
         {"pkg": "route", "hdir": "route", "specs": [spec("C01/route", "VerifC01Route")]},
     ],
 }
@@ -92,6 +94,7 @@ PROPS["C19"] = {
     "assumptions": ["mutual exclusion by the global mutex + sequential specification imply linearizability to a max-register per name"],
     "groups": [
         {"pkg": "validate", "hdir": "validate", "specs": [spec("C19/step", "VerifC19Step"), spec("C19/seq", "VerifC19Seq"), spec("C19/fnv-injective", "VerifC19Injective")]},
+        {"pkg": "table", "hdir": "table", "specs": [spec("C19/table/2-points", "VerifC19Table", {"points": "xx"}), spec("C19/table/3-points", "VerifC19Table", {"points": "xxx"}, tier="thorough")]},
     ],
 }
 
